@@ -18,6 +18,8 @@ Reset == /\ Is("Reset") /\ l' = l + 1 /\ n' = Ev.n /\ stored' = Ev.stored
          /\ flag' = [g \in DOMAIN Ev.feats |-> "none"] /\ perm' = [g \in DOMAIN Ev.feats |-> Id(Ev.n)]
          \* bookkeeping: counts, column -> feature map, descriptors (checked by the driver against the sources: descOK)
          /\ Ev.nfeatures = Len(Ev.feats) /\ Ev.columns = TotalColumns(feats') /\ Ev.col2feat = Column2Feature(feats') /\ Ev.descOK
+         \* the stack generates the features its generators were given (subsets of the input features, pairs for the product)
+         /\ Ev.stackOK
 Op == /\ Is("Op") /\ l' = l + 1 /\ UNCHANGED <<n, stored, feats, target>>
       /\ CASE Ev.op = "drop" -> flag' = [flag EXCEPT ![Ev.f + 1] = "drop"] /\ UNCHANGED perm
            [] Ev.op = "undrop" -> flag' = [g \in DOMAIN feats |-> "none"] /\ UNCHANGED perm
@@ -32,10 +34,11 @@ Shuffled == /\ Is("Shuffled") /\ l' = l + 1 /\ UNCHANGED <<n, stored, feats, tar
 Views == /\ Is("Views") /\ l' = l + 1 /\ UNCHANGED <<n, stored, feats, target, flag, perm>>
          /\ \A i \in DOMAIN Ev.samples : Ev.samples[i] \in 0..(n - 1)
          /\ Len(Ev.flat) = Len(Ev.samples) /\ Len(Ev.sel) = Len(feats)
+         /\ Ev.shapeOK                                        \* the sizes of the returned views (also for an empty list of samples)
          /\ \A i \in DOMAIN Ev.samples : Ev.flat[i] = FlatRow(feats, stored, flag, perm, Ev.samples[i])
          /\ \A g \in DOMAIN feats : Ev.sel[g] = [i \in DOMAIN Ev.samples |-> Select(feats[g], View(feats, stored, flag, perm, g, Ev.samples[i]))]
 Targets == /\ Is("Targets") /\ l' = l + 1 /\ UNCHANGED <<n, stored, feats, target, flag, perm>>
-           /\ Len(target) > 0
+           /\ Len(target) > 0 /\ Ev.shapeOK
            /\ Ev.rows = [i \in DOMAIN Ev.samples |->
                            TargetRow(target[1], target[3], target[4], stored[target[2] + 1][Ev.samples[i] + 1])]
            /\ Ev.sel = [i \in DOMAIN Ev.samples |->
@@ -45,7 +48,17 @@ Bad == /\ Is("Bad") /\ l' = l + 1 /\ UNCHANGED <<n, stored, feats, target, flag,
        /\ (Ev.what = "sample" => (Ev.index < 0 \/ Ev.index >= n))
        /\ (Ev.what = "feature" => (Ev.index < 0 \/ Ev.index >= Len(feats)))
        /\ Ev.threw
-Next == Reset \/ Op \/ Shuffled \/ Views \/ Targets \/ Bad
+\* the views through select_iterator_t (compared by the driver with the direct calls on the same samples, exact equality):
+\* loop(samples, callback): every feature is visited exactly once, by the callback of its kind (visits / via);
+\* loop(samples, feature, callback): the same for a given feature (visits1 / via1); loop(samples, features, callback): as often as
+\* listed (visitsN / listedN); the worker index is below the pool size, the feature index is valid
+KindOf(feat) == IF feat.kind = "product" THEN "scalar" ELSE feat.kind
+Iter == /\ Is("Iter") /\ l' = l + 1 /\ UNCHANGED <<n, stored, feats, target, flag, perm>>
+        /\ Ev.visits = [g \in DOMAIN feats |-> 1] /\ Ev.via = [g \in DOMAIN feats |-> KindOf(feats[g])]
+        /\ Ev.visits1 = [g \in DOMAIN feats |-> 1] /\ Ev.via1 = [g \in DOMAIN feats |-> KindOf(feats[g])]
+        /\ Ev.visitsN = Ev.listedN /\ Len(Ev.visitsN) = Len(feats)
+        /\ Ev.valuesOK /\ Ev.workerOK /\ Ev.indexOK
+Next == Reset \/ Op \/ Shuffled \/ Views \/ Targets \/ Bad \/ Iter
 Spec == Init /\ [][Next]_vars
 Accepted == LET d == TLCGet("stats").diameter IN
             IF d - 1 = Len(TraceLog) THEN TRUE ELSE PrintT(<<"REJECTED_AT", d>>) /\ FALSE
